@@ -492,8 +492,34 @@ func replayGen(rep *Report, r *Result) *ReplayOutcome {
 		return nil // fresh code lives in a scratch module: no overlay replay
 	}
 	var body string
-	switch o.Kind {
-	case "wf":
+	switch {
+	case strings.Contains(o.Name, "/typednil/"):
+		parts := strings.Split(o.Name, "/")
+		var oo *OneofSchema
+		for i, p := range parts {
+			if p == "typednil" && i+1 < len(parts) {
+				oo = ms.oneof(parts[i+1])
+			}
+		}
+		if oo == nil || len(oo.Members) == 0 {
+			return nil
+		}
+		body = fmt.Sprintf(`
+	m := &%s{%s: (*%s)(nil)}
+	func() {
+		defer func() {
+			if r := recover(); r != nil {
+				violated(t, "typed-nil oneof wrapper: Size/Marshal panicked: %%v", r)
+			}
+		}()
+		sz := proto.Size(m)
+		b, err := proto.Marshal(m)
+		if err == nil && len(b) != sz {
+			violated(t, "typed-nil oneof wrapper: Size=%%d but Marshal produced %%d bytes", sz, len(b))
+		}
+	}()
+`, ms.Name, oo.GoName, oo.Members[0].Wrapper.Obj().Name())
+	case o.Kind == "wf":
 		// map entry without a value / list element: <unit>/<Field>/wf[…]
 		parts := strings.Split(o.Name, "/")
 		if len(parts) < 3 {
